@@ -371,7 +371,7 @@ def deep_expr(n, rng, variant):
             e = f"({e} + {i})"
     elif variant % 3 == 1:
         e = "req"
-        for i in range(d):
+        for i in range(d // 2):            # every level is a call that is analysed: half the depth keeps it affordable
             e = f"idf({e})"
     else:
         e = "req"
